@@ -46,3 +46,23 @@ Section Fetch.
     rewrite Eterm. apply trim_term_exact; lia.
   Qed.
 End Fetch.
+
+(* get_one_term as a whole: whatever covering entry the fetch information lists first, and whether the chunk cache answers or
+   not (a hit for exactly the term's range is exact: C12), the term handed to the writer is the chunk range the segment names *)
+Section GetOneTerm.
+  Variable content : hash -> bytes.
+  Theorem get_one_term_exact F s x cached infos : st_find F (sg_cas s) = Some x ->
+    sg_start s <= sg_end s ->
+    (cached = None \/ cached = Some (term_of content F s)) ->
+    (exists r, In r infos /\ fst r <= sg_start s /\ sg_end s <= snd r) ->
+    (forall r, In r infos -> snd r <= N.of_nat (length (ci_chunks x))) ->
+    get_one_term cached infos (fetched_range content x) (sg_start s) (sg_end s) (lenN (term_of content F s)) = Some (term_of content F s).
+  Proof.
+    intros Hf H12 Hc (r0 & Hin0 & Ha0 & Hb0) Hbound. unfold get_one_term. replace (sg_end s <? sg_start s) with false by lia.
+    destruct Hc as [->| ->]; [|reflexivity]. unfold pick_fetch.
+    destruct (find (fun r => (fst r <=? sg_start s) && (sg_end s <=? snd r)) infos) as [[fs fe]|] eqn:E.
+    - apply find_some in E as [Hin Hp]. cbn [fst snd] in Hp. apply andb_prop in Hp as [P1 P2]. apply N.leb_le in P1, P2.
+      apply term_from_fetch_range; try assumption. exact (Hbound _ Hin).
+    - exfalso. pose proof (find_none _ _ E r0 Hin0) as Hn. cbn beta in Hn. apply andb_false_iff in Hn as [Hn|Hn]; apply N.leb_gt in Hn; lia.
+  Qed.
+End GetOneTerm.
